@@ -838,6 +838,25 @@ fn main() {
             })
         }
         "miri-run" => miri_run_main(&args[1..]),
+        "wf-check" => {
+            // wf-check <seed> <start> <end> <step>: generator self-check of the C07 models
+            let seed: u64 = args[1].parse().unwrap();
+            let (a, b, st): (u64, u64, u64) = (args[2].parse().unwrap(), args[3].parse().unwrap(), args[4].parse().unwrap());
+            let files = c07::real_files();
+            let mut bad = 0;
+            let mut run = a;
+            while run < b {
+                if let c07::ModelSrc::Gen(m) = &c07::plan_for(seed, run, &files).src {
+                    if let Err(e) = m.well_formed() {
+                        println!("run {run}: {e}");
+                        bad += 1;
+                    }
+                }
+                run += st;
+            }
+            println!("wf-check done, {bad} ill-formed");
+            std::process::exit(if bad == 0 { 0 } else { 2 });
+        }
         "show" => {
             let v = plan_value(&args[1], args[2].parse().unwrap(), args[3].parse().unwrap());
             println!("{}", serde_json::to_string_pretty(&v).unwrap());
